@@ -57,7 +57,9 @@ func (s *Sys) exec(sql string, quiet bool) drv.Result {
 
 // shortWait: a statement on the standard-input table waits for the session's stdin lock; when the transaction already
 // holds it the wait can only end by time-out, so the time-out is made short for statements that touch no file.
-const shortWait = 20 * time.Millisecond
+// (20 ms were too short: on a machine at load average 100 the wait ran out before csvq had looked at the free lock once, and the
+// property-preserving change G5-b2 raised the alarm of a defect that is repaired)
+const shortWait = 5 * time.Second
 
 // Do executes one data-changing statement with the log captured.
 func (s *Sys) Do(o Op) drv.Result {
